@@ -977,6 +977,17 @@ pub fn input_class(c: &OpCase) -> String {
 /// A qualifier derived from the public values of an accepted execution, for
 /// the same purpose as `input_class`.
 pub fn published_class(c: &OpCase, publics: &[Fq]) -> String {
+    if (c.op == "div_rem" || c.op == "rem") && c.p[0] == 0 && !publics.is_empty() {
+        // the decomposition of dividend + (field order) instead of the dividend
+        let d = c.bigp(0);
+        let wrapped = bi(&publics[0]) + crate::util::fq_modulus();
+        let (q, r) = (&wrapped / &d, &wrapped % &d);
+        let outs: Vec<BigUint> = publics[1..].iter().map(bi).collect();
+        let hit = if c.op == "div_rem" { outs == vec![q, r] } else { outs == vec![r] };
+        if hit {
+            return "[no dividend bound: quotient and remainder of dividend + field order]".into();
+        }
+    }
     if c.op == "b64.url" {
         let n = (c.p[1] as usize).min(publics.len());
         if publics[..n].iter().any(|b| *b == Fq::from(b'+' as u64) || *b == Fq::from(b'/' as u64)) {
